@@ -68,6 +68,18 @@ def check(ctx):
             and "range(" in norm(n.value) and "nrow" in norm(n.value)]
     ctx.ob("TNT-tolist", tl, norm(rows[0]) if rows else "data = [{} for i in range(self.nrow)]", rows[0] if rows else tl.node, bool(rows),
            "one record per row" if rows else "records are not created one per row", nontrivial=False, clause="one record per row")
+    st = [n for n in body_nodes(tl.node) if isinstance(n, ast.Assign) and isinstance(n.targets[0], ast.Subscript)
+          and isinstance(n.targets[0].value, ast.Subscript)]
+    ok = bool(st)
+    why = "every record receives every column, None included"
+    for s_ in st:
+        facts = [(k, t) for k, t in facts_at(tl, s_) if not t.startswith("iter:")]
+        if facts:
+            ok = False
+            why = (f"the cell is stored only under {facts}: records lose the field when the value is missing, so the intermediate "
+                   f"object no longer has one field per column and a column whose first value is missing disappears on the way back")
+    ctx.ob("TNT-tolist", tl, norm(st[0]) if st else "data[i][colname] = value", st[0] if st else tl.node, ok, why,
+           clause="one record per row and one field per column")
     for name in ("to_json", "write_json"):
         fn = repo.fn(f"{DF}.{name}")
         ok = any(isinstance(c.func, ast.Attribute) and c.func.attr == name and "to_list_of_dicts()" in norm(c.func.value) for _, c in calls_in(fn))
